@@ -845,6 +845,7 @@ class Evaluator:
                     if fld is not None:
                         path.append(("item", la[2]))
                         path.append(("attr0", fld))
+                        self._alias_entry = (e.id, fld, la[2])
                         return ("self", fld), path[::-1]
                 if la is not None and la[0] in ("mcall", "call", "dict", "list", "new"):
                     # ... or to the very object stored under a key a moment ago (self.table[k] = fresh(); row = self.table[k])
@@ -853,6 +854,7 @@ class Evaluator:
                         if va is not None and va[0] == "setitem" and va[3] is lv:
                             path.append(("item", va[2]))
                             path.append(("attr0", k_))
+                            self._alias_entry = (e.id, k_, va[2])
                             return ("self", k_), path[::-1]
                 return ("local", e.id), path[::-1]
             elif isinstance(e, ast.Call):
@@ -867,6 +869,7 @@ class Evaluator:
                 return ("value", v), path[::-1]
 
     _alias_local = None
+    _alias_entry = None
 
     def _alias_of_attr(self, v, st):
         """field name when the local value v IS the (mutable) object currently held by a self attribute, else None"""
@@ -906,6 +909,14 @@ class Evaluator:
             if self._alias_local is not None and self._alias_local[1] == field:
                 st.locs[self._alias_local[0]] = new   # the alias keeps denoting the (now modified) object
             self._alias_local = None
+            if self._alias_entry is not None and self._alias_entry[1] == field:
+                # the entry, as modified: the same change applied to what the local held
+                oldl = st.locs.get(self._alias_entry[0])
+                if oldl is not None and len(p) >= 2 and p[0] == ("item", self._alias_entry[2]):
+                    st.locs[self._alias_entry[0]] = self._apply_path(oldl, p[1:], how, v)
+                else:
+                    st.locs[self._alias_entry[0]] = self.mk_sub(new, self._alias_entry[2])
+            self._alias_entry = None
             if self.attr_writes is not None:
                 self.attr_writes.add(field)
             self.emit("mutate", stmt, attr=field, how=how, path=p, value=v, aug=aug, old=old)
